@@ -41,6 +41,9 @@ def gen_peer(r, db):
         return [r.choice(list(db[cat])) if r.random() < 0.6 else gen_name(r) for _ in range(k)]
     q = {'banner_str': 'SSH-2.0-OpenSSH_8.0', 'has_kex': True, 'comp': r.choice([['none'], ['none', 'zlib@openssh.com']]),
          'key': lst('key'), 'kex': lst('kex'), 'enc': lst('enc'), 'mac': lst('mac'), 'host_keys': {}, 'dh': {}}
+    # an empty name-list on the wire (e.g. the MAC list of an AEAD-only server) reaches the tool as [''] (ReadBuf.read_list)
+    if r.random() < 0.08:
+        q[r.choice(['mac', 'mac', 'enc', 'key'])] = ['']
     for k in q['key']:
         if r.random() < 0.6 and k not in q['host_keys']:
             ca = r.choice([('', 0), ('', 0), ('ssh-rsa', 4096), ('ssh-ed25519', 256), ('ecdsa-sha2-nistp256', 256), ('ssh-rsa', 0), ('', 2048)])
@@ -153,6 +156,9 @@ def run(ctx):
     q = gen_peer(r, db)
     q['enc'] = ['a=b', '=', 'x==']
     peers.append((q, ['corpus-D11']))
+    q = gen_peer(r, db)
+    q['enc'], q['mac'] = ['chacha20-poly1305@openssh.com', 'aes256-gcm@openssh.com'], ['']
+    peers.append((q, ['corpus-empty-list']))
     for _ in range(ctx.scale(400, 10000)):
         peers.append((gen_peer(r, db), ['generated']))
     stale = [0]
